@@ -62,6 +62,23 @@ Section Gen.
     | _, _ => acc
     end.
 
+  (* IFORMContour._compute evaluates COLUMN-wise: coordinates[:, i] = distributions[i].icdf(p[:, i], given=coordinates[:, cond_idx])
+     for all points at once (a column that has not been written yet reads as dflt in every row) *)
+  Definition col_of (d : dist) (pcol : list T) (cols : list (list T)) : list T :=
+    match cond d with
+    | None => map (fun p => icdf d p None) pcol
+    | Some j => map (fun pg => icdf d (fst pg) (Some (snd pg))) (combine pcol (nth j cols (map (fun _ => dflt) pcol)))
+    end.
+  Fixpoint chain_cols (ds : list dist) (pcols : list (list T)) (cols : list (list T)) : list (list T) :=
+    match ds, pcols with
+    | d :: ds', pc :: pcs => chain_cols ds' pcs (cols ++ [col_of d pc cols])
+    | _, _ => cols
+    end.
+  Definition cols_of (n_dim : nat) (rows : list (list T)) : list (list T) :=
+    map (fun i => map (fun r => nth i r dflt) rows) (seq 0 n_dim).
+  Definition rows_of_cols (n : nat) (cols : list (list T)) : list (list T) :=
+    map (fun k => map (fun c => nth k c dflt) cols) (seq 0 n).
+
   (* Rosenblatt transformation of a complete row through the model's own cdfs *)
   Fixpoint rosen_from (ds : list dist) (i : nat) (full : list T) : list T :=
     match ds with
@@ -120,11 +137,18 @@ Section Gen.
     let sp := scale b units in
     mkcontour b sp (map (fun u => chain ds (map Phi u) []) sp).
 
+  (* the same contour, evaluated the way IFORMContour does it: norm.cdf of the whole matrix, then column by column *)
+  Definition contour_vec_of (ds : list dist) (b : T) (units : list (list T)) : contour :=
+    let sp := scale b units in
+    mkcontour b sp (rows_of_cols (length sp) (chain_cols ds (cols_of (length ds) (map (map Phi) sp)) [])).
+
   Definition beta_iform (alpha : T) : T := Phiinv (sub one alpha).
   Definition beta_isorm (alpha : T) (n_dim : nat) : T := sqrt (chi2ppf (sub one alpha) n_dim).
 
   Definition iform_with nsph (ds : list dist) (alpha : T) (n : nat) : contour :=
     contour_of ds (beta_iform alpha) (units_of nsph (length ds) n).
+  Definition iform_vec_with nsph (ds : list dist) (alpha : T) (n : nat) : contour :=
+    contour_vec_of ds (beta_iform alpha) (units_of nsph (length ds) n).
   Definition isorm_with nsph (ds : list dist) (alpha : T) (n : nat) : contour :=
     contour_of ds (beta_isorm alpha (length ds)) (units_of nsph (length ds) n).
   (* IFORMContour(model, alpha, n_points) / ISORMContour(model, alpha, n_points) *)
@@ -207,6 +231,10 @@ Definition two_piF : float := 0x1.921fb54442d18p+2.
 
 Definition iformF (ft : ftables) (ds : list fdist) (alpha : float) (n : nat) : contour float :=
   iform_with float nan 0 1 two_piF PrimFloat.add PrimFloat.sub PrimFloat.mul PrimFloat.div FloatBits.of_nat
+             (flook (ft_phi ft)) (flook (ft_phiinv ft)) (flook (ft_cos ft)) (flook (ft_sin ft))
+             (nsph_look (ft_nsph ft)) ds alpha n.
+Definition iform_vecF (ft : ftables) (ds : list fdist) (alpha : float) (n : nat) : contour float :=
+  iform_vec_with float nan 0 1 two_piF PrimFloat.add PrimFloat.sub PrimFloat.mul PrimFloat.div FloatBits.of_nat
              (flook (ft_phi ft)) (flook (ft_phiinv ft)) (flook (ft_cos ft)) (flook (ft_sin ft))
              (nsph_look (ft_nsph ft)) ds alpha n.
 Definition isormF (ft : ftables) (ds : list fdist) (alpha : float) (n : nat) : contour float :=
